@@ -132,10 +132,15 @@ async fn drive(sc: &Scenario, opts: RunOpts, budget: u64) -> Vec<Ev> {
     let t0 = tokio::time::Instant::now();
     let rec = Recorder::new(Clock::Virtual(t0), opts.log_polls);
     set_current(Some(rec.clone()));
-    let n = sc.actors.len();
+    let n0 = sc.actors.len();
+    let n = n0 + sc.late_spawn as usize;
+    let mut specs = sc.actors.clone();
+    if sc.late_spawn {
+        specs.push(ActorSpec::default());
+    }
     let world = Arc::new(World {
         rec: rec.clone(),
-        specs: sc.actors.clone(),
+        specs,
         peers: Mutex::new((0..n).map(|_| None).collect()),
         us_per_ms: 1000,
     });
@@ -221,6 +226,15 @@ async fn drive(sc: &Scenario, opts: RunOpts, budget: u64) -> Vec<Ev> {
         }
     }
     let dctx = ClientCtx { c: 9999, src: Src::Driver, world: world.clone(), routing: sc.routing };
+    // C12: a fresh actor spawned after everything else happened must work and get a fresh id
+    if sc.late_spawn {
+        if let Some((r, jh)) = spawn_actor(n0, &ActorSpec::default(), &world) {
+            watchers.push(tokio::spawn(watch(n0, jh, world.clone())));
+            let mut h = Holdings::default();
+            h.strong.push(Some(Tracked::new(Strong::Direct(r), n0, &rec)));
+            holdings.push(Some(h));
+        }
+    }
     let mut probe_tasks = vec![];
     let mut probed_actor = vec![false; n];
     for h in holdings.iter_mut().flatten() {
@@ -235,6 +249,20 @@ async fn drive(sc: &Scenario, opts: RunOpts, budget: u64) -> Vec<Ev> {
             if h.weak[slot].is_some() {
                 dctx.exec(h, opi, &Op::ProbeWeak { w: slot }).await;
                 opi += 1;
+            }
+        }
+        if cfg!(feature = "metrics") {
+            for slot in 0..h.strong.len() {
+                if h.strong[slot].is_some() {
+                    dctx.exec(h, opi, &Op::Metrics { h: slot }).await;
+                    opi += 1;
+                }
+            }
+            for slot in 0..h.weak.len() {
+                if h.weak[slot].is_some() {
+                    dctx.exec(h, opi, &Op::MetricsWeak { w: slot }).await;
+                    opi += 1;
+                }
             }
         }
     }
